@@ -248,7 +248,7 @@ func ruleC14abc(c *Ctx) []*report.Result {
 		r.Undecide("fmtforward.MakeFormat not found")
 		return []*report.Result{r}
 	}
-	it := engine.New(engine.Config{Prog: c.P.Prog, InModule: c.P.InModule, Hooks: &fwdHooks{}, NoMerge: true})
+	it := engine.New(engine.Config{Prog: c.P.Prog, InModule: c.P.InModule, Hooks: &fwdHooks{}, NoMerge: true, MaxStates: 5000})
 	type verbCase struct {
 		name string
 		val  engine.AbsVal
